@@ -20,21 +20,33 @@ def make_chemical(p, ID, via='same'):
     """via (phase-locked chemicals only): 'same' - built with the locked phase as reference phase and locked in place;
     'inplace_other' / 'copy_other' - built with ANOTHER reference phase, then locked in place / through at_state(copy=True)"""
     locked = p.get('lock', 'none') != 'none'
-    if not locked:
+    if not locked and via != 'setters':
+        via = 'same'
+    if locked and via == 'setters':
         via = 'same'
     key = (ID, via) + tuple(sorted(p.items()))
     if key in _cache:
         return _cache[key]
     Tm, Tb = p['Tm20'] / 20., p['Tb20'] / 20.
     Hfus, Hvap = p['Hfus400'] / 400., p['Hvap400'] / 400.
-    ref = p['ref'] if via == 'same' else ('l' if p['lock'] != 'l' else 'g')
-    ch = tmo.Chemical.blank(ID, phase_ref=ref, MW=100., Tm=Tm, Tb=Tb, Hfus=Hfus, Sfus=Hfus / Tm, Tc=2000., Pc=5e6, omega=0.3,
-                            S0=p['S0_20'] / 20., Hf=0., free_energies=False)
+    ref = p['ref'] if via in ('same', 'setters') else ('l' if p['lock'] != 'l' else 'g')
+    wrong = via == 'setters'
+    ch = tmo.Chemical.blank(ID, phase_ref=ref, MW=100., Tm=Tm + (7. if wrong else 0.), Tb=Tb + (11. if wrong else 0.), Hfus=Hfus + (500. if wrong else 0.),
+                            Sfus=(Hfus / Tm) + (3. if wrong else 0.), Tc=2000., Pc=5e6, omega=0.3,
+                            S0=p['S0_20'] / 20. + (9. if wrong else 0.), Hf=0., free_energies=False)
     for ph, c in (('s', p['cs']), ('l', p['cl']), ('g', p['cg'])):
         getattr(ch.Cn, ph).add_method(f=lambda T, c=c: 2. * c * T, f_int=lambda T1, T2, c=c: c * (T2 * T2 - T1 * T1),
                                       f_int_over_T=lambda T1, T2, c=c: 2. * c * (T2 - T1), Tmin=1., Tmax=5000.)
     ch.Hvap.add_method(f=lambda T, Hvap=Hvap: Hvap, Tmin=1., Tmax=5000.)
     ch.reset_free_energies()
+    if via == 'setters':
+        # built with OTHER constants, then corrected through the public setters (Tm, Tb rebuild the functors; Hfus, Sfus, S0
+        # rewrite them in place)
+        ch.Tm = Tm
+        ch.Tb = Tb
+        ch.Hfus = Hfus
+        ch.Sfus = Hfus / Tm
+        ch.S0 = p['S0_20'] / 20.
     if locked:
         # phase-locked: Chemical.at_state re-runs _init_energies through its single-phase branch
         if via == 'copy_other':
@@ -89,7 +101,7 @@ class World:
             exc = type(e).__name__
             extra = dict(msg=str(e)[:200])
         obs = dict(exc=exc, H400=0, S20=0, Sg20=0, Cn20=0, Sres20=0, Slib20=0, dSmix_negative=False,
-                   refH=0, refS=0, jHvap=0, jSvap=0, jHfus=0, jSfus=0, press=0, pressL=0, dH=0, dS=0)
+                   refH=0, refS=0, jHvap=0, jSvap=0, jHfus=0, jSfus=0, press=0, pressL=0, dH=0, dS=0, switch=0)
         obs.update(extra)
         return obs
 
@@ -192,4 +204,22 @@ def db_eval(ID, ref, lock='none'):
         dH = max(dH, ppm(H(ph, T2) - H(ph, T1) - qH, qH))
         dS = max(dS, ppm(S(ph, T2) - S(ph, T1) - qS, qS))
     out['dH'], out['dS'] = dH, dS
+    # another heat-capacity method is selected for the liquid (public attribute) and the energies are rebuilt: the heat capacity
+    # reported at a temperature asked for just before is the new model's, i.e. the slope of the new enthalpy
+    out['switch'] = 0
+    m = ch.Cn.l
+    Tq = (Tm + Tb) / 2.
+    float(ch.Cn('l', Tq))
+    others = sorted(k for k in m.all_methods if k != m.method and m.T_limits[k][0] < Tq - 2. and m.T_limits[k][1] > Tq + 2.)
+    if others:
+        old = m.method
+        try:
+            m.method = others[0]
+            ch.reset_free_energies()
+            c1 = float(ch.Cn('l', Tq))
+            slope = (H('l', Tq + 0.5) - H('l', Tq - 0.5))
+            out['switch'] = ppm(c1 - slope, slope)
+        finally:
+            m.method = old
+            ch.reset_free_energies()
     return out
